@@ -127,6 +127,12 @@ func (r *recorder) addS(ev string, kv ...any) (int, string) {
 	return r.nclos, r.lastSt
 }
 
+func (r *recorder) sawClosing() bool {
+	r.mu.Lock()
+	defer r.mu.Unlock()
+	return r.nclos > 0
+}
+
 func (r *recorder) idleFor() time.Duration {
 	r.mu.Lock()
 	defer r.mu.Unlock()
@@ -274,13 +280,13 @@ func (s *session) inject(in Inj) {
 		s.cancel()
 	case "sigterm", "sighup", "sigint":
 		s.mu.Lock()
-		reg := s.sigReady
+		// registered for certain: after the settle time that follows the first Running, or once the
+		// collector has been seen Closing (it only gets there from the select loop)
+		reg := s.sigReady || s.rec.sawClosing()
 		if reg && in.K != "sighup" && s.nsig < 3 {
 			s.sure = true // (the collector's signal channel holds 3; what does not fit is dropped)
 		}
-		if reg {
-			s.nsig++
-		}
+		s.nsig++
 		if reg && in.K == "sighup" {
 			s.expectGen++
 		}
